@@ -164,9 +164,19 @@ class OSMRoadNetworkLinkHelper(NamedTuple):
                         dst_lat, dst_lon = dst_coord
                         src_geoid = h3.geo_to_h3(src_lat, src_lon, resolution=sim_h3_resolution)
                         dst_geoid = h3.geo_to_h3(dst_lat, dst_lon, resolution=sim_h3_resolution)
-                        data = graph.get_edge_data(
-                            src, dst, 0, None
-                        )  # data index "0" as this uses networkx's multigraph implementation
+                        # networkx's multigraph implementation keeps parallel edges src -> dst under
+                        # integer keys. a LinkId names the pair (src, dst) only, and the route search
+                        # prices a pair with its fastest parallel edge, so that is the edge whose data
+                        # the Link has to carry (not whichever edge happens to have key 0)
+                        parallel_edges = graph.get_edge_data(src, dst) or {}
+                        data = (
+                            min(
+                                parallel_edges.values(),
+                                key=lambda edge_data: edge_data.get("travel_time", float("inf")),
+                            )
+                            if parallel_edges
+                            else None
+                        )
                         speed = (
                             data.get("speed_kmph", default_speed_kmph)
                             if data
